@@ -66,7 +66,7 @@ CLAUSES = {
     "distance closed form (pins the code): (0,0) if s = 0, ZeroDivisionError if c = 0, else Andoyer's formula with round(dist f^2, 0), every float input":
         "proved [ideal, C18_distance_value; the spec `andoyer` is a transcription of the code: it pins the code against change and carries the symmetry/coincident/equator theorems, it is no property by itself]",
     "distance along a meridian = integral of rm (1e-4)":
-        "proved [ideal, C18_distance_meridian_arc(_angle) + C18_andoyer_meridian_first_order; Coquelicot RInt of mer_radius = the function Earth.rm computes (rm_ok): for one meridian, latitudes p1 < p2 < p1 + 180 deg, a > 0, 0 <= f <= 0.01: the integral exists and |arc - D| <= 2 f^2 a (phi2 - phi1); for f <= 0.007 (IAU76, WGS84; user ellipsoids up to 0.007) |arc - D| <= 1e-4 arc. Mechanism: Andoyer as coded is EXACTLY the integral of the first-order expansion a(1 - 2f + 3f sin^2 phi), and |rm - expansion| <= 2 f^2 a pointwise (polynomial factorisations + interval). NOT TRUE for the whole user range: Andoyer's formula is first order in f and the literal 1e-4 is exceeded for f above about 0.0099 (Earth(Ellipsoid(6378137.0, 0.01, w)).distance(0.0, 0.0, 0.0, 0.5) = 54546.593 m, integral of rm = 54552.158 m, relative 1.02e-4): for user ellipsoids the oracle therefore uses max(1e-4, 3 f^2). Not proved: p2 - p1 = 180 deg exactly (antipodal through the poles), binary64 rounding]",
+        "proved [ideal, C18_distance_meridian_arc(_angle) + C18_andoyer_meridian_first_order; Coquelicot RInt of mer_radius = the function Earth.rm computes (rm_ok): for one meridian, latitudes p1 < p2 < p1 + 180 deg, a > 0, 0 <= f <= 0.01: the integral exists and |arc - D| <= 2 f^2 a (phi2 - phi1); for f <= 0.007 (IAU76, WGS84; user ellipsoids up to 0.007) |arc - D| <= 1e-4 arc. Mechanism: Andoyer as coded is EXACTLY the integral of the first-order expansion a(1 - 2f + 3f sin^2 phi), and |rm - expansion| <= 2 f^2 a pointwise (polynomial factorisations + interval). NOT TRUE for the whole user range: Andoyer's formula is first order in f and the literal 1e-4 is exceeded for f above about 0.0099 (Earth(Ellipsoid(6378137.0, 0.01, w)).distance(0.0, 0.0, 0.0, 0.5) = 54546.593 m, integral of rm = 54552.158 m, relative 1.02e-4): the oracle holds every ellipsoid to the literal 1e-4; the excess for 0.0098 < f <= 0.01 (<= 1.2e-4) is the known finding distance-meridian-arc-first-order-f-near-0.01. Not proved: p2 - p1 = 180 deg exactly (antipodal through the poles), binary64 rounding]",
     "distance within 0.6 % of the great-circle distance":
         "proved [ideal, C18_distance_great_circle(_angle) + C18_central_angle + C18_builtin_flattening: for every pair that is neither coincident nor exactly antipodal (s > 0, c > 0) and every a > 0, f >= 0: a sigma (1-2f) <= D <= a sigma (1+f), sigma = central angle (haversine formula proved); for f <= 0.00359 (IAU76, WGS84) |D - R sigma| <= 0.006 R sigma with the mean radius R = (2a+b)/3. With R = a the clause is false (2f = 0.67 % along a meridian at the equator). Exactly antipodal pairs and binary64 rounding: searched]",
     "parallax_correction closed form (after repairs 5494b49/2d034b9): delta_alpha = atan2(B, A), dec' = atan2(sin d - rho_sin k, hypot(A, B)), WGS84 observer":
@@ -470,15 +470,26 @@ class Oracle:
         if lon1 == lon2 and lat1 != lat2:
             arc = simpson(lambda x: e.rm(x), min(lat1, lat2), max(lat1, lat2), 400) * math.pi / 180.0
             self.n += 401
-            tol = 1e-4 if ellx else max(1e-4, 3.0 * f * f)
-            if not abs(d - arc) <= tol * arc:
-                self.add("distance-meridian-arc", "distance(%s) = %r, integral of rm = %r (rel %.3g > %.3g)" % (args, d, arc, abs(d - arc) / arc, tol), inp, code)
+            tol = 1e-4                       # the property's number, for every ellipsoid in its range (f <= 0.01)
+            rel = abs(d - arc) / arc
+            if not rel <= tol:
+                # known finding (not repairable: Andoyer's formula is first order in f, remainder <= 2 f^2):
+                # user ellipsoids with f above 0.0098 exceed the literal 1e-4 by a few per cent (1.02e-4 at f = 0.01)
+                key = ("distance-meridian-arc-first-order-f-near-0.01"
+                       if (not ellx and 0.0098 < f <= 0.01 and rel <= 1.2e-4) else "distance-meridian-arc")
+                self.add(key, "distance(%s) = %r, integral of rm = %r (rel %.3g > %.3g, f = %r)" % (args, d, arc, rel, tol, f), inp, code)
         # within 0.6 % of the great circle (sphere of mean radius) for the built-in ellipsoids;
         # for any ellipsoid Andoyer's correction lies in [-2f, f] (plus second order)
-        if ellx:
-            gc = (2.0 * a + b) / 3.0 * sigma
-            if not abs(d - gc) <= 0.006 * gc:
-                self.add("distance-great-circle", "distance(%s) = %r, great circle %r (%.3f %%)" % (args, d, gc, 100 * abs(d - gc) / gc), inp, code)
+        # (sphere of mean radius (2a+b)/3; the text does not say which sphere - this one is the most favourable)
+        gc = (2.0 * a + b) / 3.0 * sigma
+        if not abs(d - gc) <= 0.006 * gc:
+            # known finding (the property's 0.6 % cannot hold on strongly flattened user ellipsoids: arcs along the
+            # equator and along a meridian differ by 2f themselves): only user ellipsoids with f > 0.0036, deviation
+            # inside the geometric envelope [-5f/3, +4f/3] (+ second order)
+            dev = abs(d - gc) / gc
+            key = ("distance-great-circle-0.6pct-user-ellipsoid-f-above-0.0036"
+                   if (not ellx and 0.0036 < f <= 0.01 and dev <= 1.75 * f) else "distance-great-circle")
+            self.add(key, "distance(%s) = %r, great circle of the mean radius %r (%.3f %% > 0.6 %%, f = %r)" % (args, d, gc, 100 * dev, f), inp, code)
         ratio = d / (a * sigma)
         if not (1.0 - 2.0 * f - 1e-7 - 2 * f * f <= ratio <= 1.0 + f + 1e-7 + 2 * f * f):
             self.add("distance-andoyer-range", "distance(%s) / (a sigma) = %r outside [1-2f, 1+f], f = %r" % (args, ratio, f), inp, code)
